@@ -128,6 +128,20 @@ def run_failure(case, rec):
                 ('falsy' if not beh['data'] else 'truthy'))
         rec.violation('C03:%s:%s:%s' % (tag, what, norm(problems[-1])), case, expected=[a for a, _ in alts],
                       observed=dict(answer=o['answer'], calls=o['calls']), detail=problems[-1])
+    if kind == 'perr' and o['text'] and problems is None and case['place'] == 'call':
+        # "reaches the caller": the response text read back by the library's own client-side classes carries the same error
+        import pjrpc
+        from pjrpc.common import UNSET
+        try:
+            resp = pjrpc.Response.from_json(json.loads(o['text']))
+            e = resp.error
+            data_ok = (e.data is UNSET) if (beh['data'] == ABSENT and isinstance(beh['data'], str)) else (e.data is not UNSET and ref.typed_eq(e.data, beh['data']))
+            if not (resp.is_error and ref.typed_eq(e.code, beh['code']) and e.message == beh['message'] and data_ok):
+                rec.violation('C03:perr:the error the caller reads back differs from the one the method raised', case,
+                              expected=(beh['code'], beh['message'], beh['data']), observed=(e.code, e.message, repr(e.data)))
+        except Exception as ex:   # noqa
+            rec.violation('C03:perr:the error response cannot be read back by the client-side classes', case,
+                          expected=(beh['code'], beh['message']), observed='%s: %s' % (type(ex).__name__, ex))
     if kind == 'boom' and o['text']:
         for marker in (methods.MARK, beh['exc'], 'Traceback'):
             if marker in o['text']:
